@@ -96,6 +96,18 @@ def translate():
         kf_problems.append("key-shape")
     c.update(kf)
     translate.problems = kf_problems
+    # DecryptQuic_: which quantity the header-protection-sample guard bounds (the packet's own end, or merely the buffer)
+    m_dec = re.search(r"func DecryptQuic_\(.*?\n}\n", ciph, re.S)
+    decb = m_dec.group(0) if m_dec else ""
+    if re.search(r"if blockEnd-sampleOffset < SampleSize \{", decb):
+        c["quic_sample_guard_on_block"] = "true"
+    else:
+        c["quic_sample_guard_on_block"] = "false"
+        if not re.search(r"if len\(buf\) < \w+ \{", decb):
+            kf_problems.append("decrypt-sample-guard")
+    if not ("payload := buf[payloadOffset:blockEnd]" in decb and "sampleOffset := pnOffset + MaxPacketNumberLength" in decb):
+        kf_problems.append("decrypt-shape")
+    c["quic_sample_size"] = _const(ciph, "SampleSize", "cipher.go")
     # where the sniff deadline is computed: fixed once in the constructor, every read armed with that value
     sn = rd("component/sniffing/sniffer.go")
     m_ctor = re.search(r"func NewStreamSniffer\(.*?\n}\n", sn, re.S)
@@ -127,7 +139,7 @@ def gen_statements():
     body = src[src.index("Open Scope N_scope.") + len("Open Scope N_scope."):]
     out = ["(* GENERATED from C06_Props.v by tools/c06.py: the theorem statements as Props, for the proof files. *)",
            "From Coq Require Import List NArith Bool Arith.", "From Dae.gen Require Import C06_Extracted.",
-           "From Dae Require Import C06_Spec C06_Model C06_Async C06_Session C06_Clock C06_Key C06_HttpVar.", "Import ListNotations.", "Open Scope N_scope.", ""]
+           "From Dae Require Import C06_Spec C06_Model C06_Async C06_Session C06_Clock C06_Key C06_HttpVar C06_Decrypt.", "Import ListNotations.", "Open Scope N_scope.", ""]
     for m in re.finditer(r"(Theorem|Example)\s+(\w+)\s*:(.*?)\nProof\. exact \w+\. Qed\.|(Definition\s+\w+.*?\.)\n", body, re.S):
         if m.group(4):
             mo = re.match(r"Definition\s+(\w+)_open\s*:\s*Prop\s*:=(.*)\.$", m.group(4), re.S)
@@ -517,6 +529,34 @@ def varint(v, width=None):
     b = bytearray(v.to_bytes(width, "big"))
     b[0] |= {1: 0, 2: 0x40, 4: 0x80, 8: 0xc0}[width]
     return bytes(b)
+
+
+def gen_quic_short_cases(rng, thorough):
+    """Initial-shaped long headers of a known version whose Length field is too small for packet number + tag
+    (0..40), followed by 0..64 more bytes in the buffer: trailing bytes, a coalesced copy, or the same short
+    Initial sent twice on one flow.  Nothing decrypts; the sniffer must say 'not applicable', never panic."""
+    out = []
+    Ls = range(41) if thorough else [0, 1, 3, 4, 5, 15, 16, 17, 19, 20, 21, 40]
+    Ts = [0, 1, 15, 19, 20, 21, 29, 40, 64] if thorough else [0, 19, 20, 40, 64]
+    h = gen_hello(rng, None)
+    for L in Ls:
+        for T in (Ts if thorough else rng.sample(Ts, 3)):
+            ver = rng.choice([b"\x00\x00\x00\x01", b"\x00\x00\x00\x01", b"\x6b\x33\x43\xcf", b"\xff\x00\x00\x1d"])
+            dcid = rbytes(rng, rng.choice([8, 8, 1, 20]))
+            flags = 0xc0 | rng.randrange(16)
+            hdr = bytes([flags]) + ver + bytes([len(dcid)]) + dcid + b"\x00" + b"\x00" + varint(L, rng.choice([None, 2]))
+            pkt = hdr + rbytes(rng, min(L, 8))
+            style = rng.choice(["trailing", "trailing", "coalesced", "twice"])
+            if style == "trailing":
+                dgrams = [{"raw": (pkt + rbytes(rng, T)).hex()}]
+            elif style == "coalesced":
+                dgrams = [{"raw": (pkt + pkt + rbytes(rng, T)).hex()}]
+            else:
+                dgrams = [{"raw": (pkt + rbytes(rng, max(0, 29 - len(pkt)))).hex()}] * 2
+            out.append(({"kind": "quic", "init": "", "dgrams": dgrams},
+                        {"hello": h, "claimed": enc_handshake(h), "frags": [[] for _ in dgrams], "honest": False, "ver": "short", "mal": "short_length"}))
+    return out
+
 
 
 def gen_quic_case(rng, i):
@@ -940,6 +980,8 @@ def matcher_of(case, meta, res, codes):
     elif case["kind"] == "quic":
         if 2 in codes and meta.get("ver") == "v2" and meta.get("honest"):
             return "quic-v2-initial-not-recognised"
+        if 7 in codes:
+            return "quic-sniff-panics"
     elif case["kind"] == "async":
         sent = sum(len(e["d"]) // 2 for e in case["script"])
         if 6 in codes and 7 not in codes and res.get("dataerr") and res.get("armed_left"):
@@ -1143,6 +1185,7 @@ def main(argv):
         for i in range(n_async):
             gen.append(gen_async_case(rng, i))
         gen += gen_key_cases(rng, args.tier != "quick")
+        gen += gen_quic_short_cases(rng, args.tier != "quick")
         try:
             gen += make_session_cases(sc, bin_sniff, rng, n_sess)
         except RuntimeError as e:
@@ -1242,6 +1285,7 @@ def main(argv):
             "quic-v2-initial-not-recognised": "a well-formed QUIC v2 (RFC 9369) Initial flight is not recognised: v2 Initial packets carry long-packet-type bits 0b01 and the client initial secret label is 'client in' for v2 as well",
         }
         DESCR.update({
+            "quic-sniff-panics": "SniffUdp panics on this datagram sequence (e.g. the length arithmetic of DecryptQuic_: an Initial-shaped header whose Length does not cover packet number + 16-byte tag, followed by more bytes in the buffer)",
             "quic-key-fingerprint-parse-panics": "NewPacketSnifferKey / parseQuicInitialFingerprint / ObserveQuicInitial (control/packet_sniffer_pool.go) index past the end of a truncated or malformed Initial-shaped datagram (Go panics)",
             "quic-key-fingerprint-parse-differs": "the session key DCID or the connection fingerprint taken from a datagram differs from the structural reading of its QUIC long header",
             "sniff-deadline-not-fixed-at-construction": "a read of SniffTcp was armed with a deadline other than construction time + sniff timeout (e.g. re-armed as now + timeout before every read): the sniffing timeout no longer bounds the whole sniff, a drip-feeding client keeps SniffTcp and the TCP handler waiting N x gap (observable: the deadlines passed to SetReadDeadline, recorded by the scripted connection)",
